@@ -185,7 +185,10 @@ func (e *env) callN(n int64, svc, method, path string, id ident, hdr map[string]
 	req.Header.Set("X-AppEngine-Request-Log-Id", reqID)
 	if id.User != "" {
 		req.Header.Set("X-AppEngine-User-Email", id.User)
-		req.Header.Set("X-AppEngine-User-Id", "uid-"+id.User)
+		// user.User.ID is only populated for Google accounts: two of the test users have none
+		if id.User != "u1@example.com" && id.User != "u2@example.com" {
+			req.Header.Set("X-AppEngine-User-Id", "uid-"+id.User)
+		}
 		req.Header.Set("X-AppEngine-Auth-Domain", "gmail.com")
 		if id.UserAdmin {
 			req.Header.Set("X-AppEngine-User-Is-Admin", "1")
@@ -580,6 +583,7 @@ func (h *hist) opUStart(user, method, url string, target int, fs []string, raw b
 			obs["err"] = r.Err
 			obs["resp_tag"] = r.Header.Get("X-Resp-Tag")
 			obs["body_ok"] = h.bodyMatches(r)
+			obs["hdr_ok"] = headersMatch(r)
 			obs["has_reqid_header"] = r.Header.Get("X-Inverting-Proxy-Request-ID") != ""
 		default:
 		}
@@ -634,6 +638,17 @@ func (h *hist) opUStart(user, method, url string, target int, fs []string, raw b
 	h.emit(map[string]interface{}{"op": "ustart", "k": k, "user": user, "method": method, "url": url, "body_len": len(body), "rid": c.RID, "faults": fs, "raw": raw}, obs)
 }
 
+// headersMatch: the repeated fields of the posted response arrive complete and in order
+func headersMatch(r reply) bool {
+	var tag int
+	if _, err := fmt.Sscanf(r.Header.Get("X-Resp-Tag"), "t%d", &tag); err != nil {
+		return false
+	}
+	xm, sc := r.Header["X-Multi"], r.Header["Set-Cookie"]
+	return len(xm) == 3 && xm[0] == fmt.Sprintf("m1-%d", tag) && xm[1] == fmt.Sprintf("m2-%d", tag) && xm[2] == "" &&
+		len(sc) == 2 && sc[0] == fmt.Sprintf("a=%d", tag) && sc[1] == fmt.Sprintf("b=%d; Path=/", tag)
+}
+
 func (h *hist) bodyMatches(r reply) bool {
 	t := r.Header.Get("X-Resp-Tag")
 	var tag int
@@ -656,7 +671,7 @@ func (h *hist) opUFinish(k int) {
 	select {
 	case r := <-c.done:
 		c.finished = true
-		h.emit(map[string]interface{}{"op": "ufinish", "k": k}, map[string]interface{}{"status": r.Status, "err": r.Err, "resp_tag": r.Header.Get("X-Resp-Tag"), "body_ok": h.bodyMatches(r),
+		h.emit(map[string]interface{}{"op": "ufinish", "k": k}, map[string]interface{}{"status": r.Status, "err": r.Err, "resp_tag": r.Header.Get("X-Resp-Tag"), "body_ok": h.bodyMatches(r), "hdr_ok": headersMatch(r),
 			"body_len": len(r.Body), "ms": r.Ms})
 	case <-time.After(10 * time.Second):
 		h.emit(map[string]interface{}{"op": "ufinish", "k": k}, map[string]interface{}{"status": -1, "err": "no answer within 10 s"})
@@ -664,7 +679,8 @@ func (h *hist) opUFinish(k int) {
 }
 
 func mkResponse(tag int, total int, status int, cacheControl bool) []byte {
-	head := fmt.Sprintf("HTTP/1.1 %d Status\r\nX-Resp-Tag: t%d\r\n", status, tag)
+	// repeated header fields must all reach the client, in order
+	head := fmt.Sprintf("HTTP/1.1 %d Status\r\nX-Resp-Tag: t%d\r\nX-Multi: m1-%d\r\nSet-Cookie: a=%d\r\nX-Multi: m2-%d\r\nSet-Cookie: b=%d; Path=/\r\nX-Multi: \r\n", status, tag, tag, tag, tag, tag)
 	if cacheControl {
 		head += "Cache-Control: no-store\r\n"
 	}
@@ -1233,6 +1249,14 @@ func (h *hist) scriptGetCache() {
 	h.opARespond(ag0, "b0", h.lastK(), 800, 200, false, []string{})
 	h.opUStart(us0, "POST", "/page?x=1", 300, []string{}, false)
 	h.opARespond(ag0, "b0", h.lastK(), 800, 200, false, []string{})
+	// two users without an App Engine user ID, each with a backend of their own, asking for the same URL
+	h.opAdd("b2", "admin", ag0, "u2@example.com", []string{"/"}, []string{})
+	h.opSeen("b2", "live")
+	h.opUStart("u1@example.com", "GET", "/private", 0, []string{}, false)
+	h.opARespond(ag0, "b1", h.lastK(), 800, 200, false, []string{})
+	h.opUStart("u2@example.com", "GET", "/private", 0, []string{}, false) // must go to b2, not be answered from u1's cache entry
+	h.opARespond(ag0, "b2", h.lastK(), 800, 200, false, []string{})
+	h.opUStart("u1@example.com", "GET", "/private", 0, []string{}, false) // u1's own cached response
 }
 
 // script 6: an agent's poll refreshes the liveness of its backend (trackers close to the end of the window)
@@ -1249,7 +1273,7 @@ func (h *hist) scriptRefresh() {
 	h.ages("b1", 200)
 	h.opAList(ag0, "b0", []string{}) // refreshes b0
 	h.opWait(4000)
-	h.opUStart(us0, "POST", "/r2", 400, []string{}, false)               // b0 polled 4 s ago: live (297 s + 4 s would not be)
+	h.opUStart(us0, "POST", "/r2", 400, []string{}, false)                // b0 polled 4 s ago: live (297 s + 4 s would not be)
 	h.opUStart("u1@example.com", "POST", "/s/r3", 400, []string{}, false) // b1 seen 204 s ago: live
 }
 
